@@ -3,6 +3,8 @@
 package server
 
 import (
+	"bytes"
+	"errors"
 	"fmt"
 	"os"
 	"sort"
@@ -49,7 +51,7 @@ func vfL1Close(s *Server) {
 
 type c04Msg struct {
 	Policy int `json:"policy"` // 0 NONE, 1 LEADER, 2 ALL
-	Size   int `json:"size"`   // 0 small, 1 around the replication limit, 2 too large, 3 value within the limit but payload above it
+	Size   int `json:"size"`   // 0 small, 1 around the replication limit, 2 too large, 3 value within the limit but payload above it, 4 a value the encryption handler cannot seal (cases with Enc)
 	Exp    int `json:"exp"`    // OCC only: 0 waive, 1 next, 2 stale, 3 future
 }
 
@@ -65,12 +67,32 @@ type c04Case struct {
 	MinISR int     `json:"minisr"` // 1..3
 	Batch  int     `json:"batch"`  // BatchMaxMessages
 	OCC    bool    `json:"occ"`
+	Enc    bool    `json:"enc,omitempty"` // the leader seals values with a handler that fails for marked values
 	Ops    []c04Op `json:"ops"`
 }
+
+// c04Codec stands in for the encryption handler of an encrypted stream: it
+// stores values as they are (so the rest of the model is unchanged) and fails
+// for values that carry the marker - the only way to reach the "failed
+// encryption" rejection, which the real handler produces only when the system
+// random source fails.
+type c04Codec struct{}
+
+var c04Unsealable = []byte("|UNSEALABLE|")
+
+func (c04Codec) Seal(b []byte) ([]byte, error) {
+	if bytes.Contains(b, c04Unsealable) {
+		return nil, errors.New("verif: injected encryption failure")
+	}
+	return append([]byte{}, b...), nil
+}
+
+func (c04Codec) Read(b []byte) ([]byte, error) { return b, nil }
 
 func genC04(t *rapid.T) c04Case {
 	c := c04Case{RF: rapid.SampledFrom([]int{1, 2, 3, 3, 3}).Draw(t, "rf"), Batch: rapid.SampledFrom([]int{1, 4, 1024}).Draw(t, "batch"), OCC: rapid.IntRange(0, 4).Draw(t, "occ") == 0}
 	c.MinISR = rapid.SampledFrom([]int{1, 1, 2, 2, 3}).Draw(t, "minisr") // may exceed the replication factor: nothing can be committed then
+	c.Enc = rapid.IntRange(0, 3).Draw(t, "enc") == 0
 	n := rapid.IntRange(2, 18).Draw(t, "nops")
 	for i := 0; i < n; i++ {
 		kinds := []string{"publish", "publish", "publish", "bounce"}
@@ -82,6 +104,9 @@ func genC04(t *rapid.T) c04Case {
 			k := rapid.IntRange(1, 5).Draw(t, "k")
 			for j := 0; j < k; j++ {
 				m := c04Msg{Policy: rapid.IntRange(0, 2).Draw(t, "policy"), Size: rapid.SampledFrom([]int{0, 0, 0, 0, 1, 2, 3, 3}).Draw(t, "size")}
+				if c.Enc && rapid.IntRange(0, 3).Draw(t, "unsealable") == 0 {
+					m.Size = 4
+				}
 				if c.OCC {
 					m.Exp = rapid.SampledFrom([]int{0, 1, 1, 1, 2, 3}).Draw(t, "exp")
 					if m.Policy == 0 {
@@ -149,6 +174,11 @@ func runC04(c c04Case, o *vfutil.Obs) *vfutil.Failure {
 		return vfutil.Failf("harness/create", "partition not leading")
 	}
 	_, leaderEpoch := p.GetLeader()
+	if c.Enc {
+		// (nothing has been published yet: the message loop is idle)
+		p.encryptionHandler = c04Codec{}
+		o.Label("sealing-handler-installed")
+	}
 
 	nc, err := nats.Connect(c04NS.ClientURL())
 	if err != nil {
@@ -336,6 +366,8 @@ func runC04(c c04Case, o *vfutil.Obs) *vfutil.Failure {
 				case 3:
 					// the value alone is within the limit, the published payload is not
 					val = append(val, make([]byte, c04MaxBytes-20-len(val))...)
+				case 4:
+					val = append(val[:len(val)-1], c04Unsealable...)
 				}
 				m.value = string(val[:len(corr)+1])
 				msg := &client.Message{Value: val, AckInbox: inbox, CorrelationId: corr, AckPolicy: c04Policy(ms.Policy)}
@@ -359,6 +391,10 @@ func runC04(c c04Case, o *vfutil.Obs) *vfutil.Failure {
 					return vfutil.Failf("harness/marshal", "%v", err)
 				}
 				switch {
+				case c.Enc && ms.Size == 4:
+					// sealing comes first in the message loop
+					m.reject = client.Ack_ENCRYPTION
+					o.Label("rejected:encryption-failed")
 				case len(data) > c04MaxBytes:
 					m.reject = client.Ack_TOO_LARGE
 					o.Label("rejected:too-large")
@@ -448,6 +484,9 @@ func runC04(c c04Case, o *vfutil.Obs) *vfutil.Failure {
 			p = s.metadata.GetPartition(name, 0)
 			if p == nil || !p.IsLeader() {
 				return vfutil.Failf("harness/bounce", "partition not leading after pause/resume")
+			}
+			if c.Enc {
+				p.encryptionHandler = c04Codec{}
 			}
 			for r := range offsets {
 				if r != "a" {
